@@ -47,6 +47,12 @@ POOL = {
     "d2/x.c": "int xb(void) { int u; return u; }\n",
     "b1.c": "// cppcheck-suppress-begin uninitvar\nint b1(void) { int u; return u; }\n// cppcheck-suppress-end uninitvar\nint b1b(void) { int w; return w; }\n",
 }
+# files whose path is a suffix of another file's path: an inline suppression belongs to exactly the file it was read from
+# ("i1.c" suppresses unreadVariable for the whole file - "ai1.c" must keep its finding; "x.c" suppresses nullPointer for the
+# whole file - "d1/x.c" must keep its finding)
+POOL["ai1.c"] = "void ai1(void) { int v; v = 1; }\n"
+POOL["x.c"] = "// cppcheck-suppress-file nullPointer\nint xt(void) { int *p = 0; return *p; }\nint xt2(int d) { return 3 / d; }\n"
+
 # per-file project settings: p1.c is compiled with -DP1, p2.c without; both guard a finding with #ifdef P1. Sequences that
 # contain one of them are analysed through a compilation database (the FileSettings path of the executors), where the
 # defines of one entry must not reach the next entry
@@ -157,7 +163,8 @@ def main(tier, seed, replay=None):
         key = "order:%s:%s" % (",".join(s), ";".join(sorted(k.split("|")[0] + ":" + k.split("|")[5] for k in b["onlyRef"])) + "/" +
                                ";".join(sorted(k.split("|")[0] + ":" + k.split("|")[5] for k in b["onlyAlt"])))
         p = vlib.save_replay(PID, "seq-" + vlib.digest(s), {"files": s, "variant": vname, "extra": extra, "diff": b})
-        violations.append({"key": classify(s, b), "what": "files %s: missing=%s extra=%s exit union/run %s/%s" % (s, b["onlyRef"], b["onlyAlt"], b["exitRef"], b["exitAlt"]), "replay": p})
+        for key in classify_all(s, b):
+            violations.append({"key": key, "what": "files %s: missing=%s extra=%s exit union/run %s/%s" % (s, b["onlyRef"], b["onlyAlt"], b["exitRef"], b["exitAlt"]), "replay": p})
     for rj in tres.rejected:
         p = vlib.save_replay(PID, "trace-" + vlib.digest(rj["label"]), rj)
         violations.append({"key": "trace:%s:%s" % ((rj["event"] or {}).get("e"), rj["invariant"]),
@@ -183,14 +190,31 @@ def main(tier, seed, replay=None):
     return rc
 
 
-def classify(s, b):
-    """Identity of a deviation for known-findings: which finding of which file went missing/appeared after which other file."""
+def classify_all(s, b):
+    """Identities of a deviation for known-findings: the known root causes that explain part of it (one key each) and,
+    if something is left unexplained, which finding of which file went missing/appeared after which other files."""
     def short(k):
         p = k.split("|")
         return "%s:%s" % (p[0], p[5])
     miss = sorted(short(k) for k in b["onlyRef"])
     extra = sorted(short(k) for k in b["onlyAlt"])
+    keys = []
+
+    def before(a_, b_):
+        return a_ in s and b_ in s and s.index(a_) < s.index(b_)
     # macro-type inline suppression of an earlier file hides the same-named macro's finding in a later file
-    if miss == ["m2.c:zerodiv"] and not extra and "m1.c" in s and "m2.c" in s and s.index("m1.c") < s.index("m2.c"):
-        return "macro-suppression-leaks:m1.c-before-m2.c"
-    return "order:%s:missing=%s:extra=%s:exit=%s/%s" % (",".join(s), ";".join(miss), ";".join(extra), b["exitRef"], b["exitAlt"])
+    if "m2.c:zerodiv" in miss and before("m1.c", "m2.c"):
+        keys.append("macro-suppression-leaks:m1.c-before-m2.c")
+        miss.remove("m2.c:zerodiv")
+    # a file-level inline suppression of a top-level file also hides the finding of a file with the same name in a
+    # sub-directory that is analysed later in the same process (the file name of an inline suppression is used as a pattern)
+    if "d1/x.c:nullPointer" in miss and before("x.c", "d1/x.c"):
+        keys.append("inline-suppression-leaks-to-same-named-file-in-subdirectory:x.c-before-d1/x.c")
+        miss.remove("d1/x.c:nullPointer")
+    if miss or extra or not keys:
+        keys.append("order:%s:missing=%s:extra=%s:exit=%s/%s" % (",".join(s), ";".join(miss), ";".join(extra), b["exitRef"], b["exitAlt"]))
+    return keys
+
+
+def classify(s, b):
+    return "+".join(classify_all(s, b))
